@@ -118,11 +118,14 @@ type Case struct {
 	// a call that resumes an interrupted run fails in the prologue of the run, before anything is restored:
 	// "store" = the checkpoint store fails when the checkpoint is read; "stale" = the call is made by a newer
 	// build of the graph (same store, same checkpoint id) in which every node that has not completed yet has
-	// another key, so the pending tasks of the checkpoint belong to no node. The FaultAt-th call of the
+	// another key, so the pending tasks of the checkpoint belong to no node; "stale-sub" = the newer build renamed
+	// a pending node INSIDE a nested graph that the run before left interrupted: the top-level run restores its
+	// tasks, the nested graph - continued from its own checkpoint - cannot (when the sequence has no such nested
+	// graph at that point: like "stale"). The FaultAt-th call of the
 	// sequence (counted from 0, > 0) is the one; a sequence that does not get that far has no such call.
 	ResumeFault string `json:"resume_fault,omitempty"`
 	FaultAt     int    `json:"fault_at,omitempty"`
-	Seed     uint64     `json:"seed,omitempty"`
+	Seed        uint64 `json:"seed,omitempty"`
 	// stream
 	NH   int    `json:"nh,omitempty"`   // number of handlers passed to InitCallbacks
 	Src  int    `json:"src,omitempty"`  // number of chunks of the source
